@@ -118,7 +118,7 @@ def cases(tier, seed):
             for i in range(0, len(allc), 28):
                 yield {"gen": gen, "seed": rnd.randrange(1 << 30), "combos": allc[i:i + 28],
                        "n": 28}
-    n = 200 if tier == "quick" else 12000
+    n = 200 if tier == "quick" else 60000
     for i in range(n):
         yield {"gen": rnd.choice((4, 5)), "seed": rnd.randrange(1 << 30),
                "n": rnd.randint(1, 30), "combos": None}
